@@ -114,6 +114,24 @@ func runCheck(id, tier, repo, dump, only string, list bool) int {
 	tfiles, _ := filepath.Glob(filepath.Join(verifDir, "contracts", "trusted", "*.spec"))
 	sort.Strings(tfiles)
 	for _, f := range tfiles {
+		// "-- external-module M": assumed contracts for module M as a dependency; when M itself is under
+		// verification its own (verified) contract files apply instead
+		if b, err := os.ReadFile(f); err == nil {
+			skip := false
+			for _, l := range strings.Split(string(b), "\n") {
+				if strings.HasPrefix(l, "-- external-module ") {
+					m := strings.TrimSpace(strings.TrimPrefix(l, "-- external-module "))
+					for _, u := range claim.Units {
+						if u.Module == m {
+							skip = true
+						}
+					}
+				}
+			}
+			if skip {
+				continue
+			}
+		}
 		if err := specs.LoadFile(f, "", true); err != nil {
 			fmt.Fprintln(os.Stderr, "trusted contracts:", err)
 			return 2
